@@ -66,7 +66,10 @@ def strip_generics(t):
 
 
 def modules_of(text):
-    return set(re.findall(r'\b([a-z_][a-z0-9_]*)::', _LIFETIME.sub('', text)))
+    out = set()
+    for m in _MODPREFIX.finditer(_num_alias(_LIFETIME.sub('', text))):
+        out.update(x for x in m.group(0).split('::') if x)
+    return out
 
 
 class Program:
@@ -159,9 +162,10 @@ class Program:
         if len(cands) == 1:
             return cands[0]
         mods = modules_of(callee)
-        best = [f for f in cands if any(('/' + m + '.rs') in f.name or (m + '::') in f.name for m in mods)]
-        if len(best) == 1:
-            return best[0]
+        scored = sorted(((sum(1 for m in mods if ('/' + m + '.rs') in f.name or f.name.startswith(m + '::')), i, f)
+                         for i, f in enumerate(cands)), reverse=True)
+        if scored[0][0] > 0 and (len(scored) == 1 or scored[0][0] > scored[1][0]):
+            return scored[0][2]
         # prefer an exact (un-suffixed) key match
         exact = [f for f in cands if getattr(f, 'keys', None) and f.keys[0] == k]
         if len(exact) == 1:
